@@ -88,8 +88,14 @@ func (ex *Exec) binop(op token.Token, xt types.Type, a, b Value, yt types.Type) 
 			}
 			return term.Ite(big, ov, r)
 		case token.EQL:
+			if h := ex.hashEq(x, y); h != nil {
+				return h
+			}
 			return term.Eq(x, y)
 		case token.NEQ:
+			if h := ex.hashEq(x, y); h != nil {
+				return term.BNot(h)
+			}
 			return term.Ne(x, y)
 		case token.LSS:
 			if signed {
@@ -256,6 +262,9 @@ func (ex *Exec) bytesCompare(a, b BSlice) int {
 func (ex *Exec) equals(a, b Value) *term.T {
 	switch x := a.(type) {
 	case *term.T:
+		if h := ex.hashEq(x, b.(*term.T)); h != nil {
+			return h
+		}
 		return term.Eq(x, b.(*term.T))
 	case float64:
 		return term.Bool(x == b.(float64))
